@@ -599,9 +599,17 @@ func (c *fctx) function() {
 	type prm struct{ name, typ string }
 	var params []prm
 	for _, v := range all {
+		if (v.Name() == "_" || v.Name() == "") && isInterface(v.Type()) {
+			continue
+		}
 		if v.Name() == "_" || v.Name() == "" {
 			t := c.typeOf(v.Type(), d.Pos())
 			params = append(params, prm{c.fresh("unused"), c.coqTy(t, d.Pos())})
+			continue
+		}
+		if isInterface(v.Type()) {
+			// an interface-typed parameter has no Gallina counterpart: it may only be used as
+			// the receiver of opaque method calls (any other use fails at the use site)
 			continue
 		}
 		t := c.typeOf(v.Type(), v.Pos())
@@ -693,6 +701,11 @@ func (c *fctx) namedResults() []string {
 		xs = append(xs, c.readVar(c.sig.Results().At(i)))
 	}
 	return xs
+}
+
+func isInterface(t types.Type) bool {
+	_, ok := t.Underlying().(*types.Interface)
+	return ok
 }
 
 func tuple(xs []string) string {
@@ -805,6 +818,12 @@ func (c *fctx) mutatedReceiver(call *ast.CallExpr) types.Object {
 		return nil
 	}
 	if _, isOpaque := c.opaqueName(f); isOpaque {
+		// an opaque method with pointer receiver called as a statement is taken to modify its receiver
+		if _, ptr := f.Type().(*types.Signature).Recv().Type().(*types.Pointer); ptr {
+			if o := c.baseVar(sel.X); o != nil && c.recOf(o) != nil {
+				return o
+			}
+		}
 		return nil
 	}
 	cu := c.callee(f, call.Pos())
@@ -998,6 +1017,22 @@ func (c *fctx) stmts(list []ast.Stmt, k func() string) string {
 			c.fail(s.Pos(), "method call statement on something other than a variable")
 		}
 		f := c.info.Selections[sel].Obj().(*types.Func)
+		if name, isOpaque := c.opaqueName(f); isOpaque {
+			r := c.recOf(o)
+			fsig := f.Type().(*types.Signature)
+			parts := []string{name, c.expr(sel.X)}
+			tys := []string{r.name + "_rec"}
+			for i, a := range call.Args {
+				parts = append(parts, c.exprAs(a, fsig.Params().At(i).Type()))
+				tys = append(tys, c.coqTy(c.typeOf(fsig.Params().At(i).Type(), a.Pos()), a.Pos()))
+			}
+			tys = append(tys, r.name+"_rec")
+			c.opq[name] = opq{name, strings.Join(tys, " -> ")}
+			tmp := c.fresh(o.Name())
+			out := fmt.Sprintf("let %s := (%s) in\n", tmp, strings.Join(parts, " "))
+			out += c.writeWhole(o, r, tmp)
+			return out + next()
+		}
 		cu := c.callee(f, call.Pos())
 		term := c.callTerm(cu, c.expr(sel.X), call, f)
 		if len(cu.mutated) != 1 {
@@ -2038,6 +2073,9 @@ func (c *fctx) callTerm(cu *unit, recv string, call *ast.CallExpr, f *types.Func
 		c.fail(call.Pos(), "call with a multi-valued or variadic argument list")
 	}
 	for i, a := range call.Args {
+		if isInterface(sig.Params().At(i).Type()) {
+			continue
+		}
 		parts = append(parts, c.exprAs(a, sig.Params().At(i).Type()))
 	}
 	return "(" + strings.Join(parts, " ") + ")"
